@@ -25,6 +25,9 @@ def run(ctx):
     combo_values_whole(ctx, "R6")
     from . import common_quote as Q
     Q.rule_upper_quoted(ctx, "R7")
+    Q.rule_space(ctx, "R7s")
+    from .c20 import protocol_language
+    protocol_language(ctx, "R8")
     import json as _json
     from .c04 import SPEC as _SPEC4
     _spec = _json.load(open(_SPEC4))
